@@ -40,7 +40,10 @@ func init() {
 	sh("C01", 90, 1200, runner.Part{Scenario: "simhost", Params: p("pdup", "0"), Share: 3},
 		runner.Part{Scenario: "simhost", Params: p("pdup", "0", "readmix", "60", "ppartition", "8", "ptransfer", "8"), Share: 2})
 	sh("C02", 90, 1200, runner.Part{Scenario: "simhost", Share: 3},
-		runner.Part{Scenario: "simhost", Params: p("pmember", "10", "hosts", "4"), Share: 1})
+		runner.Part{Scenario: "simhost", Params: p("pmember", "10", "hosts", "4"), Share: 1},
+		// few voters with non-voting members / witnesses, crashes between send and save
+		runner.Part{Scenario: "simhost", Params: p("hosts", "2", "voters", "1", "memberbias", "1", "pmember", "80", "pcrash", "20", "prestart", "100", "fsyield", "500", "readmix", "0", "clients", "3", "steps", "1200", "sessions", "0"), Share: 2},
+		runner.Part{Scenario: "simhost", Params: p("hosts", "4", "voters", "2", "memberbias", "2", "pmember", "25", "pcrash", "12", "fsyield", "300"), Share: 1})
 	sh("C03", 90, 1200, runner.Part{Scenario: "simhost", Params: p("ppartition", "10", "pcrash", "8", "ops", "8"), Share: 2},
 		runner.Part{Scenario: "simhost", Params: p("pmember", "10", "ptransfer", "10"), Share: 1})
 	sh("C04", 90, 1200, runner.Part{Scenario: "simhost", Params: p("pcrash", "12", "fsyield", "300", "torn", "1"), Share: 2},
